@@ -224,6 +224,8 @@ class NamespaceFn:
                     continue
                 if isinstance(s, ast.If) and _only_tests(s.body) and _only_tests(s.orelse):
                     continue
+                if isinstance(s, (ast.For, ast.AsyncFor)) and not s.orelse and _only_tests(s.body):
+                    continue  # ``for klass in base.__mro__: if ...: return``
                 return False
             return True
 
@@ -557,10 +559,10 @@ def shared_member_rule(run, model, rule):
             if n.kind != "test" or n.ast is None:
                 continue
             ident = False
+            derived = _names_over_bases(n.ast, nf.bases_p) | _loop_names_over_bases(nf, n)
             for sub in ast.walk(n.ast):
                 if isinstance(sub, ast.Compare) and len(sub.ops) == 1:
-                    txt = src_of(sub)
-                    mentions_base = "base" in txt or nf.bases_p in txt
+                    mentions_base = any(isinstance(x, ast.Name) and x.id in derived for x in ast.walk(sub))
                     if isinstance(sub.ops[0], (ast.Is, ast.IsNot)) and mentions_base and not (isinstance(sub.comparators[0], ast.Constant) and sub.comparators[0].value is None):
                         ident = True
                     if isinstance(sub.ops[0], (ast.In, ast.NotIn)) and mentions_base and isinstance(sub.comparators[0], (ast.Tuple, ast.List)) and all(isinstance(x, ast.Attribute) and x.attr in ("fget", "fset", "fdel") for x in sub.comparators[0].elts):
@@ -583,6 +585,38 @@ def shared_member_rule(run, model, rule):
             else:
                 run.ok(rule, nf.fi.qual + ":guard", "the identity test compares the unwrapped function with the member found on the base through the MRO (getattr)", nf.fi.loc(guards[0]))
         run.check(ok, rule, nf.fi.qual, "a member that is the very function object of a base is left as it is (identity test bypasses the merge)", "the merge also runs for a member whose function object is a base's own (`f = Base.f`, or the untouched accessors of `@Base.prop.getter`): its checker is shared with the base, so the merged lists are stored on the base's checker and every contract of the base is duplicated there", nf.fi.loc())
+
+
+def _names_over_bases(expr, bases_p):
+    """names that range over the bases or over something reached from a base (``for base in bases for klass in
+    base.__mro__``) inside the comprehensions of ``expr``; includes the parameter itself"""
+    out = {bases_p}
+    changed = True
+    while changed:
+        changed = False
+        for sub in ast.walk(expr):
+            if isinstance(sub, ast.comprehension):
+                if any(isinstance(x, ast.Name) and x.id in out for x in ast.walk(sub.iter)):
+                    for tg in ast.walk(sub.target):
+                        if isinstance(tg, ast.Name) and tg.id not in out:
+                            out.add(tg.id)
+                            changed = True
+    return out
+
+
+def _loop_names_over_bases(nf, node):
+    """targets of the ``for`` statements over the bases (or over something reached from a base) that enclose ``node``"""
+    out = {nf.bases_p}
+    changed = True
+    while changed:
+        changed = False
+        for st in ast.walk(nf.fi.node):
+            if isinstance(st, (ast.For, ast.AsyncFor)) and any(isinstance(x, ast.Name) and x.id in out for x in ast.walk(st.iter)):
+                for tg in ast.walk(st.target):
+                    if isinstance(tg, ast.Name) and tg.id not in out:
+                        out.add(tg.id)
+                        changed = True
+    return out
 
 
 def _shared_member_guard_shape(model, nf, guards):
@@ -624,6 +658,18 @@ def _shared_member_guard_shape(model, nf, guards):
             return g.stmt, "the re-use test looks the member up in the direct base's own `__dict__` (`%s`): a member the base itself inherited is not recognised, so the merge runs on the shared checker and duplicates the contracts of the class that defined it" % src_of(own_dict[0], 50)
         if not mro:
             return g.stmt, "the re-use test does not look the member up on the bases (no getattr(base, %s))" % nf.key_p
+        # ... on every class the bases inherit from: the member may be re-used from an ancestor *past* an intermediate
+        # class that overrides it (``f = Grandparent.f`` in a class whose parent redefines ``f``)
+        walks_mro = False
+        scope_exprs = list(exprs) + [st.iter for st in ast.walk(nf.fi.node) if isinstance(st, (ast.For, ast.AsyncFor))]
+        for e in scope_exprs:
+            for sub in ast.walk(e):
+                if isinstance(sub, ast.Attribute) and sub.attr == "__mro__":
+                    walks_mro = True
+                if isinstance(sub, ast.Call) and (src_of(sub.func) in ("inspect.getmro", "getmro") or (isinstance(sub.func, ast.Attribute) and sub.func.attr == "mro")):
+                    walks_mro = True
+        if not walks_mro:
+            return g.stmt, "the re-use test looks at what the bases resolve `%s` to, not at every class they inherit from: a member re-used from an ancestor past an intermediate class that overrides it (`f = Grandparent.f`) is not recognised, the merge runs on the checker shared with that ancestor and changes the ancestor's own contracts" % nf.key_p
         # one base sharing the object is enough (the other bases of a multiple inheritance need not have the member)
         for e in exprs:
             for sub in ast.walk(e):
